@@ -20,7 +20,8 @@ claim("C01",
       "Decides structural necessary conditions of exact disaggregation for every input: all per-sample inputs become "
       "position-only columns of the one frame handed to the disaggregation (and the bootstrap), the metric wrapper takes "
       "every argument from the same sub-frame through the writer's column mapping, grouping keys / Cartesian re-index / no "
-      "fill-or-drop, and the cache plumbing of overall / by_group. Does not evaluate metrics on values.",
+      "fill-or-drop, and the cache plumbing of overall / by_group. Does not evaluate metrics on values."
+      " Also: routing of sample parameters / names to each metric wrapper and the feature-processing plumbing of the constructor.",
       "Not decided: that pandas groupby().apply evaluates the metric on exactly the group's rows; the metric callables.",
       GVN + ", label-provenance domain, call-site wiring queries, finite cell specialisation", "DESIGN.md §4 C01")
 claim("C02",
@@ -38,38 +39,45 @@ claim("C03",
 claim("C04",
       "Decides the necessary structure of the parity argument: common grid and common index in both optimisation routines, "
       "interpolation / p_ignore / thresholder probability formulas, METRIC_DICT and count tables, operation pairing, "
-      "ThresholdOperation semantics.",
+      "ThresholdOperation semantics."
+      " Also: the threshold sweep (start state, sentinel, thresholds), the dispatch to the two routines and the delegation of predict.",
       "Not decided: the tie handling of the hull / interpolation indices on values, floating point; hence not the parity "
       "itself.", GVN + ", D-REGION, event-order queries", "DESIGN.md §4 C04")
 claim("C05",
       "Decides the upper-hull drop test as a polynomial inequality (non-strict), push/pop protocol, frequency-weighted "
-      "objective and arg-max, and the equalized-odds count roles and objective.",
+      "objective and arg-max, and the equalized-odds count roles and objective."
+      " Also: rounding precision before the arg-max and zero-over-runtime accumulators.",
       "Not decided: optimality against an independent optimiser.", GVN + ", event-order queries", "DESIGN.md §4 C05")
 claim("C06",
       "Static formula conformance of the constraint moments: U matrix columns, P(e), P(e,g), the +/- index, gamma, bound, "
       "the eps/ratio case table (exhaustive over order cells), the base event of each parity moment, null-propagation of "
-      "events through the control merge, and the loss moments' formulas.",
+      "events through the control merge, and the loss moments' formulas."
+      " Also: flattened predictions, total_samples, control strata kept for ordinary rows.",
       "Not decided: equality with MetricFrame on values; pandas groupby semantics.",
       GVN + ", D-REGION, nullable-value flow (D-NULL)", "DESIGN.md §4 C06")
 claim("C07",
       "Decides the premises of the linearity lemma: signed_weights and gamma are the documented linear maps of the same "
-      "stored data, cost roles, group-loss weights, relabel / reweight at both oracle call sites, projection formula.",
+      "stored data, cost roles, group-loss weights, relabel / reweight at both oracle call sites, projection formula."
+      " Also: the oracle fits a fresh copy of the configured estimator; multipliers are consumed by label.",
       "Not decided: the identity on values; exactness of the base learner.", GVN, "DESIGN.md §4 C07")
 claim("C08",
       "Decides that every early exit of the training loop is dominated by gaps[t] < nu on this iteration's gap, the "
       "best-iterate selection formulas, lock-step (Q, gap) records from paired sources, the gap / Lagrangian / multiplier / "
-      "theta formulas, the evaluation point of L_low, the LP rows and the weight padding.",
+      "theta formulas, the evaluation point of L_low, the LP rows and the weight padding."
+      " Also: the multiplier loop of eval_gap, the primal / dual LP and its certificate, the Lagrangian set-up and the multiplier records.",
       "Not decided: the saddle-point guarantees themselves (need the true optimum and an exact oracle).",
       GVN + ", event-order / dominance queries (D-ORDER)", "DESIGN.md §4 C08")
 claim("C09",
       "Decides the per-grid-point reduction (fresh estimator copy, lambda = grid[i]), lock-step records tied to this "
       "iteration's estimator, the selection formula / first arg-min / delegation, the grid generator formula and L1 "
-      "budget recursion, and that fit returns self.",
+      "budget recursion, and that fit returns self."
+      " Also: moments loaded before use, grid dispatch, copied lattice points, zero basis frames with the documented guards.",
       "Not decided: best-response optimality of each predictor.", GVN + ", D-ORDER", "DESIGN.md §4 C09")
 claim("C10",
       "Decides that both pmfs are [1-p, p] by construction, the mixture is aligned with weights_ by predictor id, predict "
       "is 1*(p >= U) from the seeded generator with p the second column, and values / probabilities handed to choice() "
-      "are ordered by the same index.",
+      "are ordered by the same index."
+      " Also: pmf column layout, one draw per row in the regression branch, the seed passed through ThresholdOptimizer.predict.",
       "Not decided: sampling frequencies; p0, p1 in [0,1] on values.", GVN + ", dataflow queries", "DESIGN.md §4 C10")
 claim("C11",
       "Decides the structural premises of the multiplicity law: weight forwarding to the confusion matrix, the degree-0 "
@@ -101,12 +109,14 @@ claim("C15",
 claim("C16",
       "Decides for both back ends: unit and update formulas (solved for the projection scalar), the contraction signature "
       "of the projection for rank 1 and 2 (Frobenius), gradient routing, the PyTorch autograd protocol order, the "
-      "adversary's input, and sibling agreement.",
+      "adversary's input, and sibling agreement."
+      " Also: loss arguments in the library order and the pass_y_ table.",
       "Not decided: autograd correctness; optimiser internals.", "D-CONTR contraction signatures, " + GVN + ", D-ORDER",
       "DESIGN.md §4 C16")
 claim("C17",
       "Decides the batch arithmetic, the per-step event order (train_step, increment, max_iter stop, callbacks, callback "
-      "stop), partial_fit's single step, and the predict dispatch over target types (exhaustive) incl. threshold default.",
+      "stop), partial_fit's single step, and the predict dispatch over target types (exhaustive) incl. threshold default."
+      " Also: callback guards and stop flag, networks set up exactly once for a partial_fit sequence, shape round trip of inverse_transform.",
       "Not decided: equality of trained weights between histories.", GVN + ", D-ORDER, D-REGION", "DESIGN.md §4 C17")
 claim("C18",
       "Decides the resampling call constants, the seed stream per random_state class, the quantile calls and rebuilding, "
@@ -116,7 +126,8 @@ claim("C18",
 claim("C19",
       "Decides over all estimator classes: no constructor-parameter write in fit, fit returns self, no history-dependent "
       "existence test / read influencing fit, predict-type methods write no state, no one-shot latch reachable from fit, "
-      "reload completeness of every Moment, no un-copied estimator fit, no unpicklable value in stored state.",
+      "reload completeness of every Moment, no un-copied estimator fit, no unpicklable value in stored state."
+      " Also: in-place mutation of containers not created by the current fit, reload independence of the moments, constructors storing their parameters.",
       "Not decided: bit-equality of refitted models; determinism of wrapped estimators.",
       "life-cycle effect analysis over the event stream (D-LIFE)", "DESIGN.md §4 C19")
 claim("C20",
